@@ -300,6 +300,15 @@ def run_case(ctx, kind_, idx):
                 wx, wy = wv.get()
                 n = len(wx)
                 if c == "n_below_2_weaver":
+                    if rng.integers(0, 3) == 0:
+                        # the factor is refused whatever is left of the series: a Weaver holding one sample only
+                        if rng.integers(0, 2):
+                            wv = Weaver(x[:1].copy(), y[:1].copy())
+                            info["history"] = ["Weaver of one sample"]
+                        else:
+                            i_ = int(rng.integers(0, n))
+                            wv.truncate_by_index(i_, i_ + 1)
+                            info["history"].append(["truncate_by_index", i_, i_ + 1])
                     strat = R.ALL[int(rng.integers(0, 6))]
                     bad = [1, 0, -3, 1.5][int(rng.integers(0, 4))]
                     info.update({"strategy": strat, "n": bad})
